@@ -24,6 +24,10 @@
                                 unmodified parameters, the binding precedes the statement that creates the worker task,
                                 names among {connection, rest, real_path} rebound elsewhere in handler or worker)
 
+3. body_resolves_first: for every Server method whose own body calls get_paths, whether its first executing statement is the
+   resolution itself (no await before it): with PathPermissions as the innermost decorator this makes the permission
+   decision and the handler's own resolution of `rest` see the same working directory and user (C04).
+
 Pure ast walk.  Fail closed: anything that does not fit raises Unclassified."""
 import ast
 import builtins
@@ -292,6 +296,39 @@ def worker_facts(server_cls):
     return wrows, hrows
 
 
+def body_resolves_first(server_cls):
+    """for every method of Server whose own body (not a nested function) calls get_paths: is the first statement that
+    executes (nested definitions and a docstring skipped) a plain assignment from self.get_paths(connection, rest) on the
+    method's own parameters, with no await in it?  Then nothing can run between the innermost decorator's decision and
+    the body's own resolution of `rest`."""
+    rows = []
+    for m in server_cls.body:
+        if not isinstance(m, (ast.FunctionDef, ast.AsyncFunctionDef)) or m.name == "get_paths":
+            continue
+        own = own_statements(m)
+        calls = [st for st in own if not isinstance(st, (ast.FunctionDef, ast.AsyncFunctionDef, ast.ClassDef)) and any(
+            isinstance(n, ast.Call) and isinstance(n.func, ast.Attribute) and n.func.attr == "get_paths" for n in ast.walk(st))]
+        if not calls:
+            continue
+        params = params_of(m)
+        first = None
+        for st in m.body:
+            if isinstance(st, (ast.FunctionDef, ast.AsyncFunctionDef, ast.ClassDef)):
+                continue
+            if isinstance(st, ast.Expr) and isinstance(st.value, ast.Constant) and isinstance(st.value.value, str):
+                continue
+            first = st
+            break
+        ok = False
+        if isinstance(first, ast.Assign) and not any(isinstance(n, (ast.Await, ast.Yield, ast.YieldFrom)) for n in ast.walk(first)):
+            v = first.value
+            ok = (isinstance(v, ast.Call) and isinstance(v.func, ast.Attribute) and v.func.attr == "get_paths" and isinstance(v.func.value, ast.Name)
+                  and v.func.value.id == params[0] and not v.keywords and len(v.args) == 2
+                  and all(isinstance(a, ast.Name) for a in v.args) and [a.id for a in v.args] == params[1:3])
+        rows.append(f"({S(m.name)}, {emit.boolean(ok)})")
+    return rows
+
+
 def generate(src_dir):
     path = Path(src_dir) / "server.py"
     tree = ast.parse(path.read_text())
@@ -323,4 +360,6 @@ def generate(src_dir):
     out += "Definition worker_paths : list (string * (string * (bool * (bool * list string)))) :=\n  [" + ";\n   ".join(wrows) + "].\n"
     out += "(* owner -> (bindings of real_path, (it is `real_path, _ = self.get_paths(connection, rest)`, (before the task is created, rebound names))) *)\n"
     out += "Definition handler_resolves : list (string * (nat * (bool * (bool * list string)))) :=\n  [" + ";\n   ".join(hrows) + "].\n"
+    out += "(* method whose own body calls get_paths -> its first executing statement is `.. = self.get_paths(connection, rest)` without await *)\n"
+    out += "Definition body_resolves_first : list (string * bool) :=\n  [" + "; ".join(body_resolves_first(srv)) + "].\n"
     return out
